@@ -886,6 +886,13 @@ example : (writeFile .over [((['d'], ['f']), 1)] (['d'], ['f']) 2).map (lookupF 
     = some (some 2) := by decide
 
 
+-- counter-witness for the code before the repair `C19-jpeg-extension`: `"jpeg"` was written with the
+-- extension `jpg`, so a save list asking for both formats names one file twice and the refusing
+-- writer aborts the observation
+example : (saveRun ['d'] ([] : Files Nat)
+    (opsObservation (fun _ _ => 0) [(.image, ['j','p','g']), (.image, ['j','p','g'])] 1)).isNone
+    = true := by decide
+
 /-! ### tables regenerated from today's source -/
 
 /-- the directory is created with `exist_ok=False`, inside a `while True` whose
